@@ -157,6 +157,18 @@ CHECKS.update(
     }
 )
 
+CHECKS.update(
+    {
+        "C18": (
+            "Hypothesis-generated finished backtests with every report recomputed independently from node histories; round-trip of the transaction list through ReplayTransactions",
+            "For generated finished backtests (flat/nested, shared tickers, multipliers, no-trade and no-security runs, shorts, spreads) each report is recomputed from the node histories; the "
+            "transaction list of zero-commission runs is replayed into a fresh flat strategy and must reproduce positions and values.",
+            "Replay preconditions as in the repository's replay tests; offsetting same-date trades (zero net quantity) are discarded from the replay relation.",
+            "5/C18",
+        ),
+    }
+)
+
 NOT_YET = {}
 
 ALL = ["C%02d" % i for i in range(1, 21)]
